@@ -471,10 +471,17 @@ class CallMixin:
                          z3.Implies(z3.ForAll([i], z3.Implies(z3.And(lo <= i, i < hi), a[i] == b[i]), qid="sumcong_inner"),
                                     f(a, lo, hi) == f(b, lo, hi)),
                          patterns=[z3.MultiPattern(f(a, lo, hi), f(b, lo, hi))], qid="sumcong")]
+        # lower bounds (induction on hi): a sum of terms >= c is >= c * (number of terms), for c = 0 and c = -1
+        for c in (0, -1):
+            axs.append(z3.ForAll([a, lo, hi],
+                                 z3.Implies(z3.And(lo <= hi, z3.ForAll([i], z3.Implies(z3.And(lo <= i, i < hi), a[i] >= c), qid="sumlb_inner")),
+                                            f(a, lo, hi) >= c * z3.ToReal(hi - lo)),
+                                 patterns=[f(a, lo, hi)], qid="sumlb_%d" % -c))
         for ax in axs[2:]:
             if not any(ax.eq(p) for p in st.pc):
                 st.assume(ax)
-        self.ctx.models_used.add("sum(list) = seqsum: congruence axiom (depends only on the summed elements); step axioms via unfold hints")
+        self.ctx.models_used.add("sum(list) = seqsum: congruence axiom (depends only on the summed elements) and lower-bound axioms "
+                                 "(terms >= 0 resp. >= -1); trusted, by induction on the length")
 
     # ---- sorting: the result is a permutation (ghost bijection pi / inverse sigma) ordered by the key
     def sorted_model(self, src, keyfn, st, reverse=False, cmp=None):
@@ -649,6 +656,76 @@ class CallMixin:
         st.env["_sample_index"] = mk_tuple([mk_int(i) for i in idx])
         return self.new_list(e, a2, z3.IntVal(n), st)
     bi_sample = bi_random_sample
+
+    # ---- elementary functions (A5): uninterpreted with the elementary facts of DESIGN.md 4.5 --------------------------
+    def elem_fun(self, name):
+        return z3.Function(name + "_f", z3.RealSort(), z3.RealSort())
+
+    def pi_const(self, st):
+        pi = z3.Real("pi_c")
+        ax = z3.And(pi > z3.RealVal("3.14159"), pi < z3.RealVal("3.1416"))
+        if not any(ax.eq(p) for p in st.pc):
+            st.pc.append(ax)
+        self.ctx.models_used.add("math.pi: a real constant with 3.14159 < pi < 3.1416")
+        return pi
+
+    def elem_axioms(self, st):
+        sin, cos = self.elem_fun("sin"), self.elem_fun("cos")
+        t = z3.Real("el_t")
+        pi = self.pi_const(st)
+        axs = [z3.ForAll([t], sin(t) * sin(t) + cos(t) * cos(t) == 1, patterns=[sin(t)], qid="el_pyth_s"),
+               z3.ForAll([t], sin(t) * sin(t) + cos(t) * cos(t) == 1, patterns=[cos(t)], qid="el_pyth_c"),
+               z3.ForAll([t], z3.And(sin(t) >= -1, sin(t) <= 1), patterns=[sin(t)], qid="el_rng_s"),
+               z3.ForAll([t], z3.And(cos(t) >= -1, cos(t) <= 1), patterns=[cos(t)], qid="el_rng_c"),
+               z3.ForAll([t], z3.Implies(z3.And(t >= 0, t <= pi / 2), sin(t) >= 0), patterns=[sin(t)], qid="el_pos_s"),
+               z3.ForAll([t], z3.Implies(z3.And(t >= 0, t <= pi / 2), cos(t) >= 0), patterns=[cos(t)], qid="el_pos_c"),
+               sin(0) == 0, cos(0) == 1]
+        for ax in axs:
+            if not any(ax.eq(p) for p in st.pc):
+                st.pc.append(ax)
+        self.ctx.models_used.add("sin/cos: uninterpreted with sin^2+cos^2=1, |.|<=1, >=0 on [0,pi/2], sin 0 = 0, cos 0 = 1 (A5)")
+
+    def bi_math_cos(self, args, kwargs, st, spec):
+        self.elem_axioms(st)
+        return SV(REAL, self.elem_fun("cos")(self.to_real(args[0])))
+    bi_np_cos = bi_math_cos
+
+    def bi_math_sin(self, args, kwargs, st, spec):
+        self.elem_axioms(st)
+        return SV(REAL, self.elem_fun("sin")(self.to_real(args[0])))
+    bi_np_sin = bi_math_sin
+
+    def bi_math_sqrt(self, args, kwargs, st, spec):
+        f = self.elem_fun("sqrt")
+        t = z3.Real("el_t")
+        axs = [z3.ForAll([t], z3.Implies(t >= 0, z3.And(f(t) >= 0, f(t) * f(t) == t)), patterns=[f(t)], qid="el_sqrt")]
+        for ax in axs:
+            if not any(ax.eq(p) for p in st.pc):
+                st.pc.append(ax)
+        self.ctx.models_used.add("sqrt: uninterpreted with sqrt(t) >= 0 and sqrt(t)^2 = t for t >= 0 (A5)")
+        return SV(REAL, f(self.to_real(args[0])))
+    bi_np_sqrt = bi_math_sqrt
+
+    def bi_math_exp(self, args, kwargs, st, spec):
+        f = self.elem_fun("exp")
+        t = z3.Real("el_t")
+        axs = [z3.ForAll([t], f(t) > 0, patterns=[f(t)], qid="el_exp"), f(0) == 1]
+        for ax in axs:
+            if not any(ax.eq(p) for p in st.pc):
+                st.pc.append(ax)
+        self.ctx.models_used.add("exp: uninterpreted with exp > 0, exp 0 = 1 (A5)")
+        return SV(REAL, f(self.to_real(args[0])))
+    bi_np_exp = bi_math_exp
+    bi_exp = bi_math_exp
+
+    def spec_cos(self, node, st):
+        return self.bi_math_cos([self.ev(node.args[0], st, True)], {}, st, True)
+
+    def spec_sin(self, node, st):
+        return self.bi_math_sin([self.ev(node.args[0], st, True)], {}, st, True)
+
+    def spec_sqrt(self, node, st):
+        return self.bi_math_sqrt([self.ev(node.args[0], st, True)], {}, st, True)
 
     def bi_math_pow(self, args, kwargs, st, spec):
         return self.power(SV(REAL, self.to_real(args[0])), args[1], st, spec)
@@ -1103,6 +1180,33 @@ class CallMixin:
             st.bound = saved_b
 
     def apply_fun(self, fd, args, st):
+        if fd.by_value:
+            dom, zargs = [], []
+            for (n, t), a in zip(fd.params, args):
+                if t.kind == "list":
+                    e, arr, off, ln = self.seq_of(self.coerce(a, t, st) if a.ty.kind == "list" else a, st, True)
+                    if not (z3.is_int_value(off) and off.as_long() == 0):
+                        raise Unsupported("by-value spec function on a slice")
+                    dom += [arr.sort(), z3.IntSort()]
+                    zargs += [arr, ln]
+                else:
+                    dom.append(sort_of(t))
+                    zargs.append(self.coerce(a, t, st).t)
+            f = z3.Function(fd.name, *(dom + [sort_of(fd.ret)]))
+            if fd.prefix_recursive and len(fd.params) == 2 and fd.params[0][1].kind == "list" and fd.params[1][1].kind == "int":
+                a = z3.Const("pr_a", dom[0])
+                l, l2, n, k = z3.Ints("pr_l pr_l2 pr_n pr_k")
+                v = z3.Const("pr_v", dom[0].range())
+                axs = [z3.ForAll([a, l, l2, n], f(a, l, n) == f(a, l2, n), patterns=[z3.MultiPattern(f(a, l, n), f(a, l2, n))],
+                                 qid="prefix_len_" + fd.name),
+                       z3.ForAll([a, k, v, l, n], z3.Implies(n <= k, f(z3.Store(a, k, v), l, n) == f(a, l, n)),
+                                 patterns=[f(z3.Store(a, k, v), l, n)], qid="prefix_store_" + fd.name)]
+                for ax in axs:
+                    if not any(ax.eq(p) for p in st.pc):
+                        st.pc.append(ax)
+                self.ctx.models_used.add("prefix-recursive spec function %s: frame axioms (independent of the length argument, "
+                                         "unchanged by a store at index >= n) -- by induction on n, trusted" % fd.name)
+            return SV(fd.ret, f(*zargs))
         harrs = []
         for key in fd.heap:
             harrs.append(st.harr(key, self.heap_sort(key)))
